@@ -256,6 +256,7 @@ impl IrSpanned<ExprCompiled> {
                                 BcInstrSlowArg {
                                     span,
                                     spans: key_spans,
+                                    ..Default::default()
                                 },
                                 (kvs, target),
                             );
